@@ -20,6 +20,37 @@ type stats struct {
 	// was in flight, or landed on the instant of a receive-timeout expiry or retry
 	// of its own target.
 	overlapHits int
+	// non-trivial rule of the long part: a retry that was judged against the backoff
+	// bounds after the target had been failing (no attempt longer than
+	// 2*RetryMaxDelay) for at least longStreak, or under a configured
+	// RetryBaseDelay of at least longStreak.
+	lateRetries int
+}
+
+// longStreak is what the long part calls a long time (labels and its
+// non-triviality rule only; no verdict depends on it).
+const longStreak = 16 * time.Minute
+
+// errShape names the shape of a recorded error text (labels only).
+func errShape(text string) string {
+	const mark = "rpc error: code = "
+	code := func(rest string) string {
+		if k := strings.IndexByte(rest, ' '); k >= 0 {
+			return rest[:k]
+		}
+		return rest
+	}
+	switch k := strings.Index(text, mark); {
+	case text == "EOF":
+		return "eof"
+	case k == 0:
+		return "status-" + code(text[len(mark):])
+	case k > 0:
+		return "wrapped-status-" + code(text[k+len(mark):])
+	case strings.HasPrefix(text, "transport: "):
+		return "wrapped-plain"
+	}
+	return "plain"
 }
 
 func (s *stats) label(l string) {
@@ -82,6 +113,12 @@ type tstate struct {
 	attempts int
 	sessions int
 	prevGap  time.Duration // previous failure-to-retry gap of this incarnation
+
+	// labels of the long part: the current failing streak (no attempt of it lasted
+	// longer than 2*RetryMaxDelay, the manager's rule for starting the backoff afresh)
+	attemptAt     *time.Duration // start of the attempt in progress / that failed last
+	streakStart   time.Duration  // Add, or the end of the last attempt longer than 2*RetryMaxDelay
+	streakRetries int
 }
 
 const slack = time.Millisecond // float rounding of the jittered backoff interval (it may exceed its upper end by 1ns)
@@ -120,6 +157,14 @@ func judge(sc *Scenario, trace []Ev) (*stats, error) {
 	}
 	if sc.RandPct != 0 {
 		st.label("jitter")
+	}
+	switch {
+	case ms(sc.BaseMs) >= longStreak:
+		st.label("base-delay>=16min")
+	case ms(sc.MaxMs) >= longStreak:
+		st.label("max-delay>=16min")
+	case sc.MaxMs <= 1000 && sc.BaseMs < 1000:
+		st.label("max-delay<=1s")
 	}
 	if sc.RecvTimeoutMs > 0 {
 		st.label("global-recv-timeout")
@@ -207,7 +252,7 @@ func judge(sc *Scenario, trace []Ev) (*stats, error) {
 				}
 				// A fresh incarnation starts with the call, not with its return: the
 				// goroutine Add starts may act before the harness has recorded the return.
-				*t = tstate{name: t.name, everAdded: true, managed: true, timeout: t.timeout, attempts: t.attempts, sessions: t.sessions}
+				*t = tstate{name: t.name, everAdded: true, managed: true, timeout: t.timeout, attempts: t.attempts, sessions: t.sessions, streakStart: e.At}
 			}
 		case kAddRet:
 			if e.Info == "duplicate" {
@@ -320,9 +365,35 @@ func judge(sc *Scenario, trace []Ev) (*stats, error) {
 				}
 				t.prevGap = gap
 				st.label("retry")
+				// how long (and over how many retries) the target has been failing without
+				// an attempt long enough to start the backoff afresh
+				if t.attemptAt != nil && *t.pendingFail-*t.attemptAt > 2*ms(sc.MaxMs) {
+					t.streakStart, t.streakRetries = *t.pendingFail, 0
+				}
+				t.streakRetries++
+				age := e.At - t.streakStart
+				switch {
+				case age >= 4*longStreak:
+					st.label("retry-judged-after-failing>=64min")
+					fallthrough
+				case age >= longStreak:
+					st.label("retry-judged-after-failing>=16min")
+				}
+				switch {
+				case t.streakRetries >= 100:
+					st.label("retry-judged-after>=100-failures-in-a-row")
+					fallthrough
+				case t.streakRetries >= 25:
+					st.label("retry-judged-after>=25-failures-in-a-row")
+				}
+				if age >= longStreak || minDelay >= longStreak {
+					st.lateRetries++
+				}
 			}
 			t.pendingFail = nil
-			if e.N >= len(sc.Targets[idxOf(e.Tgt)].Attempts) {
+			at := e.At
+			t.attemptAt = &at
+			if e.N >= scriptLen(sc.Targets[idxOf(e.Tgt)].Attempts) {
 				st.label("script-exhausted")
 			}
 		case kDialResult:
@@ -338,8 +409,11 @@ func judge(sc *Scenario, trace []Ev) (*stats, error) {
 				case "hang":
 					st.label("dial-hang-ended")
 				}
-				if e.Err == "context deadline exceeded" {
+				if strings.Contains(e.Err, "context deadline exceeded") {
 					st.label("dial-timeout-fired")
+				}
+				if e.Info == "hang" || e.Info == "ctx" {
+					st.label("dial-cancelled:" + errShape(e.Err))
 				}
 			}
 		case kRelease:
@@ -433,8 +507,15 @@ func judge(sc *Scenario, trace []Ev) (*stats, error) {
 				st.label("eof" + after)
 			case "error":
 				st.label("stream-error" + after)
+				st.label("stream-error:" + errShape(e.Err))
 			case "ctx":
 				st.label("stream-cancelled" + after)
+				// the error VALUE the cancelled stream reported (a real gRPC stream reports
+				// status Canceled, not context.Canceled)
+				st.label("stream-cancelled:" + errShape(e.Err))
+				if s.connected {
+					st.label("session-cancelled:" + errShape(e.Err))
+				}
 			}
 		case kConnect:
 			// Clause: Connect is reported only after the first message of a new stream...
@@ -549,10 +630,14 @@ func costOf(sc *Scenario, id int64) int {
 	ti := int(id/1000000) - 1
 	n := int(id % 1000000 / 1000)
 	pos := int(id%1000) - 1
-	if ti < 0 || ti >= len(sc.Targets) || n >= len(sc.Targets[ti].Attempts) || pos < 0 || pos >= len(sc.Targets[ti].Attempts[n].Msgs) {
+	if ti < 0 || ti >= len(sc.Targets) {
 		return 0
 	}
-	return sc.Targets[ti].Attempts[n].Msgs[pos].CostMs
+	a, ok := scriptAt(sc.Targets[ti].Attempts, n)
+	if !ok || pos < 0 || pos >= len(a.Msgs) {
+		return 0
+	}
+	return a.Msgs[pos].CostMs
 }
 
 func sortedNames(m map[string]*tstate) []string {
